@@ -14,6 +14,7 @@ failures are printed as SELFTEST-FAILED and recorded in the evidence file.
 """
 import concurrent.futures as cf
 import glob
+import hashlib
 import json
 import os
 import re
@@ -50,14 +51,104 @@ def violation_keys(out, pid):
     return keys
 
 
+_TREE_HASH = {}
+
+
+def tree_hash(repo):
+    """Hash of the analysed tree (every file outside .git), so that cached self-validation results
+    are reused only for exactly the same sources."""
+    if repo in _TREE_HASH:
+        return _TREE_HASH[repo]
+    h = hashlib.sha256()
+    for root, dirs, files in sorted(os.walk(repo)):
+        dirs[:] = sorted(d for d in dirs if d != ".git")
+        for f in sorted(files):
+            p = os.path.join(root, f)
+            h.update(os.path.relpath(p, repo).encode() + b"\0")
+            try:
+                with open(p, "rb") as fh:
+                    h.update(fh.read())
+            except OSError:
+                h.update(b"?")
+            h.update(b"\0")
+    _TREE_HASH[repo] = h.hexdigest()
+    return _TREE_HASH[repo]
+
+
+def file_hash(path):
+    with open(path, "rb") as fh:
+        return hashlib.sha256(fh.read()).hexdigest()
+
+
+def split_by_property(out):
+    """Output of `-property all`: the lines of each property, keyed by id."""
+    per = {}
+    cur = None
+    for line in out.splitlines():
+        m = re.match(r"^(C\d\d)/", line)
+        m2 = re.match(r"^property (C\d\d) ", line)
+        m3 = re.match(r"^VIOLATION property=(C\d\d) ", line)
+        if m:
+            cur = m.group(1)
+        elif m2:
+            cur = m2.group(1)
+        elif m3:
+            cur = m3.group(1)
+        elif not line.startswith(" "):
+            cur = cur
+        if cur:
+            per.setdefault(cur, []).append(line)
+    return per
+
+
 def scratch_run(pid, repo, patch):
+    """Runs the checker on a scratch copy of the tree with `patch` applied. The patched tree is
+    analysed once for all properties and the per-property results are kept in .cache/ (keyed by the
+    sources of the tree, the patch and the checker binary), so that the thorough checks of the other
+    properties do not repeat the work. Any cache problem falls back to a direct run."""
+    cache_file = None
+    try:
+        key = hashlib.sha256((tree_hash(repo) + file_hash(patch) + file_hash(BIN) + file_hash(KNOWN)).encode()).hexdigest()
+        cdir = os.path.join(VERIF, ".cache", "selftest")
+        os.makedirs(cdir, exist_ok=True)
+        cache_file = os.path.join(cdir, key + ".json")
+        if os.path.exists(cache_file):
+            c = json.load(open(cache_file))
+            if c.get("applies") is False:
+                return None, "patch does not apply"
+            if pid in c.get("per", {}):
+                r = c["per"][pid]
+                return r["rc"], r["out"]
+    except Exception:
+        cache_file = None
     t = tempfile.mkdtemp(prefix="cqos-selftest.")
     try:
         subprocess.run(["rsync", "-a", "--exclude", ".git", repo.rstrip("/") + "/", t + "/"], check=True)
         ap = subprocess.run(["patch", "-p1", "-s", "--no-backup-if-mismatch", "-i", patch], cwd=t,
                             stdout=subprocess.PIPE, stderr=subprocess.STDOUT, text=True)
         if ap.returncode != 0:
+            if cache_file:
+                try:
+                    json.dump({"applies": False}, open(cache_file + ".%d.tmp" % os.getpid(), "w"))
+                    os.replace(cache_file + ".%d.tmp" % os.getpid(), cache_file)
+                except Exception:
+                    pass
             return None, "patch does not apply"
+        if cache_file:
+            rc_all, out_all = run_checker("all", t, [])
+            out_all = out_all.replace(t + "/", "").replace(t, "<scratch>")
+            per = split_by_property(out_all)
+            if rc_all in (0, 1) and pid in per:
+                entry = {"applies": True, "per": {}}
+                for k, lines in per.items():
+                    o = "\n".join(lines) + "\n"
+                    entry["per"][k] = {"rc": 1 if ("VIOLATION property=%s " % k) in o else 0, "out": o}
+                try:
+                    json.dump(entry, open(cache_file + ".%d.tmp" % os.getpid(), "w"))
+                    os.replace(cache_file + ".%d.tmp" % os.getpid(), cache_file)
+                except Exception:
+                    pass
+                return entry["per"][pid]["rc"], entry["per"][pid]["out"]
         rc, out = run_checker(pid, t, [])
         return rc, out.replace(t + "/", "").replace(t, "<scratch>")
     finally:
